@@ -19,7 +19,10 @@ import (
 	"verif/tx"
 )
 
-func TestMain(m *testing.M) { evid.Main(m, "C08") }
+func TestMain(m *testing.M) {
+	evid.StuckAsViolation = true // the property is about termination
+	evid.Main(m, "C08")
+}
 
 const watchdog = 30 * time.Second
 
